@@ -110,9 +110,11 @@ Definition out := (sys * list lmsg * list res * bool)%type.   (* state, messages
 
 (* Job.__init__ followed by Job.run / Job.run_async once the lock is held and no usable result is cached.
    [cmd_raises]: the task's command line cannot be rendered (ShellTask.cmdline raises), which audit_task
-   trips over first thing. *)
+   trips over first thing.  [collect_fails]: the body returns normally but
+   [result.outputs = self.task.Outputs._from_job(self)] raises (a returned value that does not fit the declared
+   output type, a mandatory output file that is not there) — still inside the try block. *)
 Definition frame (c : cfg) (is_wf : bool) (dir : loc) (name : string) (files : list string) (shell : bool)
-                 (cmd_raises : bool) (body : sys -> out) (s0 : sys) : out :=
+                 (cmd_raises collect_fails : bool) (body : sys -> out) (s0 : sys) : out :=
   let '(r, h1) := alloc c is_wf (heap s0) in
   let s1 := with_heap s0 h1 in
   (* _populate_filesystem: save(cache_dir, job=self) cloudpickles the job with its audit; an Audit
@@ -127,8 +129,8 @@ Definition frame (c : cfg) (is_wf : bool) (dir : loc) (name : string) (files : l
     if do_task && cmd_raises then (s3, [], [], true)                     (* except: result.errored = True *)
     else
       let '(s4, m_task) := if do_task then audit_task c r name files shell s3 else (s3, []) in
-      let '(s5, m_body, r_body, err) := body s4 in
-      (s5, m_task ++ m_body, r_body, err) in
+      let '(s5, m_body, r_body, err) := body s4 in                     (* self.task._run(self, rerun) *)
+      (s5, m_task ++ m_body, r_body, err || collect_fails) in          (* result.outputs = Outputs._from_job(self) *)
   (* finally: *)
   match finalize_audit c r err s5 with
   | None => (s5, m_start ++ m_mon ++ m_inner, r_body, true)
@@ -141,7 +143,7 @@ Definition frame (c : cfg) (is_wf : bool) (dir : loc) (name : string) (files : l
 
 (* the jobs that execute, nested as they execute *)
 Inductive task :=
-| Leaf (dir : loc) (name : string) (files : list string) (shell : bool) (fails : bool) (cmd_raises : bool)
+| Leaf (dir : loc) (name : string) (files : list string) (shell : bool) (fails : bool) (cmd_raises : bool) (collect_fails : bool)
 | Wf (dir : loc) (name : string) (nodes : list task) (fails : bool).
 
 Section Run.
@@ -151,9 +153,9 @@ Section Run.
      takes the workflow job down with it; the remaining ones are never started *)
   Fixpoint run_job (t : task) : sys -> out :=
     match t with
-    | Leaf d name files shell fails cr => frame c false d name files shell cr (fun s => (s, [], [], fails))
+    | Leaf d name files shell fails cr cf => frame c false d name files shell cr cf (fun s => (s, [], [], fails))
     | Wf d name nodes fails =>
-        frame c true d name [] false false
+        frame c true d name [] false false false
           (fun s =>
              let '(s', ms, rs, e) :=
                (fix go (l : list task) (s : sys) : out :=
